@@ -404,6 +404,9 @@ fn conn_run(a: &Args) -> Args {
         let mut task: Option<Pin<Box<dyn Future<Output = ()>>>> =
             Some(Box::pin(token.run(Reader(world.clone()), Writer(world.clone()), handler)));
         let mut shutdown_fut = None;
+        let mut early_ready = false;
+        let probe_waker = Waker::from(Arc::new(Flag(AtomicBool::new(false))));
+        let mut probe_cx = Context::from_waker(&probe_waker);
         let mut polls: u128 = 0;
         let outcome;
         loop {
@@ -418,6 +421,13 @@ fn conn_run(a: &Args) -> Args {
             if res.is_ready() {
                 outcome = 0;
                 break;
+            }
+            // the connection is still being served: a shutdown requested meanwhile must not complete yet
+            if let Some(f) = shutdown_fut.as_mut() {
+                if !early_ready && f.as_mut().poll(&mut probe_cx).is_ready() {
+                    early_ready = true;
+                    shutdown_fut = None;
+                }
             }
             if flag.0.load(Ordering::SeqCst) {
                 continue;
@@ -441,6 +451,12 @@ fn conn_run(a: &Args) -> Args {
                 shutdown_obs.push(before);
                 task = None;
                 f
+            },
+            None if early_ready => {
+                // the shutdown future completed while the connection task was alive
+                task = None;
+                shutdown_obs.push(1);
+                Box::pin(fastcgi_server::Config::new().async_runner().shutdown())
             },
             None => {
                 task = None;
